@@ -62,6 +62,7 @@ impl<'a> EFIMemoryAreaIter<'a> {
 //@  fn *: rules R2, R8
 //@  fn *: sigrewrite /Self::Item/ => /&'a EFIMemoryDesc/ x*
 //@  fn next: ret r
+//@  fn next: sigrewrite /Self::Item/ => /&'a EFIMemoryDesc/ x*
 //@  fn next: rules R8
 //@  fn next: prologue proof { assert(size_of::<EFIMemoryDesc>() == 40 && align_of::<EFIMemoryDesc>() == 8); lemma_efi_index(old(self).i as int, old(self).entries as int, old(self).mmap_tag.desc_size as int); }
 //@  fn next: spec:
